@@ -72,6 +72,8 @@ class World:
             if isinstance(v, dict):
                 if "$node" in v:
                     out.append(v["$node"])
+                if "$attr" in v:
+                    out.append(v["$attr"][0])
                 for x in v.values():
                     walk(x)
             elif isinstance(v, list):
@@ -327,7 +329,14 @@ class World:
     def _b_preloads(self, s):
         import autoarray as aa
 
-        return aa.Preloads(**s.get("kw", {}))
+        kw = {}
+        for k, v in s.get("kw", {}).items():
+            if isinstance(v, dict) and "$attr" in v:
+                # a slot value the user harvested from another object (by reference, as Preloads.set_* does)
+                kw[k] = getattr(self.env[v["$attr"][0]], v["$attr"][1])
+            else:
+                kw[k] = v
+        return aa.Preloads(**kw)
 
     def _b_inversion(self, s):
         import autoarray as aa
